@@ -14,7 +14,7 @@ EXPLANATION = (
     "the API handler doc_drop evaluated: the store actor's drop_replica is reached for the requested document and success "
     'is reported only if it succeeded. The protect callback continues only when the list of hashes was received to its '
     'explicit end marker: a channel that merely closes (the task was aborted with the engine) aborts the collection run. '
-    '(R7) the store actor drop handler evaluated against the handle count (shared with C14.R6): a drop refused because other handles hold the document leaves their handles alone. (R8) requests naming an unknown (removed) document - set_download_policy, register_useful_peer - are refused and write nothing (the unknown-document cells of C15.R2 / C17.R2). NOT decided: byte-for-byte equality of neighbouring documents (redb trusted).'
+    '(R7) the store actor drop handler evaluated against the handle count (shared with C14.R6): a drop refused because other handles hold the document leaves their handles alone. (R8) requests naming an unknown (removed) document - set_download_policy, register_useful_peer - are refused and write nothing (the unknown-document cells of C15.R2 / C17.R2). (R9) = C14.R3 open / close cells. NOT decided: byte-for-byte equality of neighbouring documents (redb trusted).'
 )
 ASSUMPTIONS = ["redb tables are identified by their key/value types", "redb range semantics trusted"]
 
@@ -616,6 +616,25 @@ def r8(ctx):
     ctx.floor("C16.R8", 3)
 
 
+def r9(ctx):
+    """what "open" means for the refusal: the handle counting of the store actor (the open / close cells of C14.R3) - the store is
+    told that a document is closed exactly when its last handle goes"""
+    import re
+    from . import C14
+    sub = type(ctx)(ctx.prop, ctx.tier, ctx.facts, ctx.cfg)
+    C14.r3(sub)
+    for o in sub.obligations:
+        pass
+        o = dict(o)
+        o["key"] = re.sub(r"^C\d\d\.R\w+", "C16.R9", o["key"])
+        o["rule"] = "C16.R9"
+        ctx.obligations.append(o)
+        if o["status"] != "holds":
+            ctx.violations.append(o)
+    ctx.analysed_bodies |= sub.analysed_bodies
+    ctx.floor("C16.R9", 8)
+
+
 def run(ctx):
     ctx.run_rule("C16.R1", r1)
     ctx.run_rule("C16.R2", r2)
@@ -625,3 +644,4 @@ def run(ctx):
     ctx.run_rule("C16.R6", r6)
     ctx.run_rule("C16.R7", r7)
     ctx.run_rule("C16.R8", r8)
+    ctx.run_rule("C16.R9", r9)
